@@ -5,7 +5,8 @@
    float32 / byte words, all attributes of one length, indices below it) — no bound on the number of
    models, vertices, attributes, repeated pointers, materials, instances or lights. *)
 From PF Require Import Base.Bytes Formats.Gltf Formats.GltfProofs Formats.GltfExtProofs Formats.GltfDedupProofs
-  Formats.GltfNodeProofs Formats.GltfTexProofs Formats.GltfGlbProofs Formats.GltfFinalProofs Formats.GltfGeomProofs.
+  Formats.GltfNodeProofs Formats.GltfTexProofs Formats.GltfGlbProofs Formats.GltfFinalProofs Formats.GltfGeomProofs
+  Formats.GltfR4DedupProofs Formats.GltfR4NodeProofs Formats.GltfR4TexProofs Formats.GltfR4ExtraProofs Formats.GltfR4FullProofs.
 From Coq Require String.
 Import String.StringSyntax.
 Delimit Scope string_scope with string.
@@ -239,6 +240,9 @@ Print Assumptions glb_declared_is_actual.
    (prim_clauses_hold); in Prop form: this record.  Still evaluator-only: texture-slot content of a
    material ([tex_matches], false in general, see above), "texture-pointer-stored-twice",
    "unreferenced-entry", and the boolean form of the node-by-node clauses. *)
+(* ROUND 4 (builder): the FULL STATEMENT is now proved — [gltf_valid_model] below (hypothesis [scene_wf]: what Go
+   guarantees about pointers, == and JSON object keys).  This Prop-form record is kept: it needs only
+   [scene_ok] and [scene_ptr_ok] and says more than the booleans in places (order of nodes, blocks of chunks). *)
 Theorem gltf_valid_model_partial : forall sc, scene_ok sc -> scene_ptr_ok sc -> doc_valid sc.
 Proof. exact model_doc_valid. Qed.
 Print Assumptions gltf_valid_model_partial.
@@ -344,6 +348,95 @@ Theorem material_content_refuted :
   gltf_validb tex_ext_scene (obs_text tex_ext_scene) = true.
 Proof. exact material_content_refuted_witness. Qed.
 Print Assumptions material_content_refuted.
+
+(* ---- round 4 (builder): the models half of the checker, clause by clause in its own boolean form, and the
+   whole property sentence.  Hypotheses (all definitions are one-liners in Formats/GltfR4*.v):
+     scene_names_ok   glTF attribute names of one mesh are distinct (map insert would replace)
+     scene_mat_ptr_ok two models' materials with the same pointer are equal by value
+     scene_tex_ptr_ok two textures of the scene with the same pointer are the same value
+     scene_ext_cls_ok material extension values in one class of Go's == are the same value
+     scene_mat_ok     texture slot names of one material are distinct
+     scene_ext_ids_ok extension ids of one material / of one texture are distinct
+   [scene_wf] is their conjunction with [scene_ok] and [scene_ptr_ok]. *)
+
+(* node by node (node j against the j-th model with a primitive): node-name, node-trs, node-kind,
+   primitive-mode, attribute-set, attribute-image, position-bounds, index-image, index-width, view-target
+   (attribute views are ARRAY_BUFFER, index views ELEMENT_ARRAY_BUFFER), instances *)
+Theorem node_geometry_clauses_hold : forall sc, scene_ok sc -> scene_ptr_ok sc ->
+  (forall mo, In mo (sc_models sc) -> names_ok (mo_mesh mo)) ->
+  forall mo nd, In (mo, nd) (combine (filter live (sc_models sc)) (model_nodes sc)) ->
+  node_geom_check (to_summary (run sc)) (Some (buf (run sc))) mo nd = [].
+Proof. exact node_geom_check_run. Qed.
+Print Assumptions node_geometry_clauses_hold.
+
+(* material-content: the material entry a model's primitive refers to has the model's material's name,
+   colours (thousandths), factors, alpha mode / cutoff, extension ids, and every texture slot refers to a
+   texture with that texture's image URI, sampler and texture-info extension ids *)
+Theorem material_content_holds : forall sc, scene_ptr_ok sc -> scene_tex_ptr_ok sc -> scene_ext_cls_ok sc ->
+  scene_mat_ok sc -> scene_ext_ids_ok sc ->
+  forall mo nd, In (mo, nd) (combine (filter live (sc_models sc)) (model_nodes sc)) ->
+  node_mat_check (to_summary (run sc)) mo nd = [].
+Proof. exact node_mat_check_run. Qed.
+Print Assumptions material_content_holds.
+
+(* texture-pointer-stored-twice: one texture pointer is given one texture index, wherever it is used *)
+Theorem texture_pointer_one_index : forall sc, scene_ptr_ok sc -> scene_tex_ptr_ok sc -> scene_ext_cls_ok sc ->
+  scene_mat_ok sc ->
+  functional (all_tex_refs (to_summary (run sc)) (placements (to_summary (run sc)) sc)) = true.
+Proof. exact tex_refs_functional_run. Qed.
+Print Assumptions texture_pointer_one_index.
+
+(* dedup-inconsistent, the checker's pairwise clause over all placements: same mesh pointer => same accessors
+   (+ same material entry => same mesh entry); different mesh pointers => different index accessors; same
+   material (pointer or value) <=> same material entry *)
+Theorem dedup_pairs_hold : forall sc, scene_ptr_ok sc -> scene_mat_ptr_ok sc ->
+  pairs_ok dedup_pair_ok (placements (to_summary (run sc)) sc) = true.
+Proof. exact dedup_pairs_run. Qed.
+Print Assumptions dedup_pairs_hold.
+
+(* dangling-index: every primitive is well-formed (distinct attribute names, valid accessor / material
+   indices, mode, SCALAR unsigned index accessor), every node reference (mesh, light, instance accessors) and
+   every texture slot of every material is valid *)
+Theorem references_valid : forall sc, scene_ptr_ok sc ->
+  let s := to_summary (run sc) in
+  (forallb (fun m => forallb (prim_ok s) (gm_prims m)) (s_meshes s) = true) /\
+  (forallb (fun nd => valid_opt (gn_mesh nd) (s_meshes s) && valid_opt (gn_light nd) (s_lights s)
+                      && match gn_inst nd with
+                         | Some a => forallb (fun kv => valid_idx (snd kv) (s_accs s)) a
+                         | None => true end) (s_nodes s) = true) /\
+  (forallb (fun m => forallb (fun sl => valid_idx (ti_index (fst (snd sl))) (s_texs s)) (gmt_texs m)) (s_mats s) = true).
+Proof. intros sc Hp. exact (conj (prims_ok_run sc Hp) (conj (nodes_valid_run sc Hp) (mat_slots_valid_run sc))). Qed.
+Print Assumptions references_valid.
+
+(* unreferenced-entry: every accessor, view, mesh, material, texture, image and sampler is referenced ... *)
+Theorem nothing_unreferenced : forall sc, (forall mo, In mo (sc_models sc) -> names_ok (mo_mesh mo)) ->
+  nothing_extra (to_summary (run sc)) = true.
+Proof. exact nothing_extra_run. Qed.
+Print Assumptions nothing_unreferenced.
+(* ... and the hypothesis is needed: a mesh with "Color" both as a 4- and a 3-component attribute (both become
+   COLOR_0; the second map insert replaces the first) leaves an accessor that nothing refers to *)
+Theorem unreferenced_entry_refuted :
+  exists sc, scene_ok sc /\ scene_ptr_ok sc /\ nothing_extra (to_summary (run sc)) = false.
+Proof. exact names_needed. Qed.
+Print Assumptions unreferenced_entry_refuted.
+
+(* the GLB container clauses of the checker (header, total length, chunk lengths and alignment, no trailing
+   bytes, chunk table vs buffers, padding) on the container the model predicts, for every JSON length and
+   every buffer length (together with glb_lengths / glb_declared_is_actual about the bytes themselves) *)
+Theorem glb_container_clauses_hold : forall jl n,
+  glb_check (glb_info_of jl n) (if 0 <? n then [n] else []) = [].
+Proof. exact glb_check_model. Qed.
+Print Assumptions glb_container_clauses_hold.
+
+(* THE PROPERTY SENTENCE (alignment excepted: alignment_refuted), in exactly the form [prop_ok] evaluates on
+   the implementation's .gltf documents: the model's document passes every clause of [gltf_check] *)
+Theorem gltf_valid_model : forall sc, scene_wf sc -> gltf_validb sc (obs_text sc) = true.
+Proof. exact gltf_valid_model_run. Qed.
+Print Assumptions gltf_valid_model.
+(* non-vacuity of [scene_wf]: two models sharing one mesh, two materials with textures (one with
+   KHR_texture_transform) *)
+Example c06_scene_wf_example : scene_wf tex_ext_scene /\ live (hd (tri_model 0) (sc_models tex_ext_scene)) = true.
+Proof. split; [exact tex_ext_scene_wf|reflexivity]. Qed.
 
 (* component alignment is FALSE of the faithful model (and of the code: known finding
    gltf:unaligned-view): a well-formed scene whose document has a FLOAT accessor at byte offset 42 *)
